@@ -12,9 +12,36 @@ package crypto
 
 // ---- C17: signed tokens need exactly one allowed asymmetric signature by the right key ----
 
+// "verified over the exact bytes received": jwx decodes leniently and verifies over its own re-encoding,
+// so a token is looked at only in the compact serialization with canonical base64url segments
+// (three segments, each decodes with RawURLEncoding.Strict(): for such a segment encode(decode(x)) == x -
+// ASSUMED of encoding/base64, not proved here).
+//@ func bytes.Split
+//@   trusted
+//@   benign
+//@   ensures forall k int :: 0 <= k && k < len(result) ==> len(result[k]) >= 0
+//@ func (base64.Encoding).Strict
+//@   trusted
+//@   benign
+//@   ensures result != nil
+//@ func (*base64.Encoding).DecodeString
+//@   trusted
+//@   benign
+//@ func CheckCompactJWS
+//@   prop C17 C06
+//@   safety
+//@   modifies nothing
+//@   loop 1 invariant !did(call (*base64.Encoding).DecodeString #1) || isNilIface(ret(call (*base64.Encoding).DecodeString #1).1)
+//@   call (*base64.Encoding).DecodeString #1 requires [each-segment-decoded-strictly-as-raw-base64url] arg(0) == ret(call (base64.Encoding).Strict #1)
+//@        && same(arg(call (base64.Encoding).Strict #1, 0), *base64.RawURLEncoding) && arg(1) == string(segment)
+//@        && segment == ret(call bytes.Split #1)[$i-1]
+//@   ensures [three-segments-all-canonical] isNilIface(result) ==> arg(call bytes.Split #1, 0) == token && len(arg(call bytes.Split #1, 1)) == 1 && arg(call bytes.Split #1, 1)[0] == 46
+//@        && len(ret(call bytes.Split #1)) == 3 && $done1
+
 //@ func JWTKidAlg
 //@   prop C17
 //@   modifies nothing
+//@   ensures [only-the-canonical-compact-form] isNilIface(result.2) ==> did(call CheckCompactJWS #1) && isNilIface(ret(call CheckCompactJWS #1)) && string(arg(call CheckCompactJWS #1, 0)) == tokenString
 //@   ensures [parsed] isNilIface(result.2) ==> isNilIface(ret(call jws.ParseString #1).1) && arg(call jws.ParseString #1, 0) == tokenString
 //@   ensures [exactly-one-signature] isNilIface(result.2) ==> len(ret(call (jws.Message).Signatures #1)) == 1
 //@   ensures [kid-alg-of-that-signature] isNilIface(result.2) ==>
